@@ -17,6 +17,7 @@ from c18 import unit_c18_family, unit_c18_attr, unit_c18_routes, unit_c11_foreig
 from c19 import unit_c19, unit_c19_model  # noqa: F401
 from c16 import unit_c16  # noqa: F401
 from c17 import unit_c17_leftovers  # noqa: F401
+from weakhash import unit_weak_hash  # noqa: F401
 from c08 import unit_c08_trace, unit_c08_crash, unit_c08_unserialisable  # noqa: F401  # noqa: F401  (work units)
 
 _md = None
